@@ -46,12 +46,15 @@ type Plan struct {
 	Budget  int    // max controller decisions before the drain phase
 	Faults  FaultPlan
 
-	BackendKeepAlive bool
-	ExtraInjectors   []ExtraInjector
-	YieldInjector    bool // park every handler at an injector placed first
-	CancelAtStep     int  // >0: cancel the server context at that decision
-	Fences           bool // yield fences in readFrames / sendServeMsg are active
-	NoTagWrap        bool
+	BackendKeepAlive   bool
+	ExtraInjectors     []ExtraInjector
+	YieldInjector      bool // park every handler at an injector placed first
+	CancelAtStep       int  // >0: cancel the server context at that decision
+	Fences             bool // yield fences in readFrames / sendServeMsg are active
+	CancelBeforeServe  bool
+	SecondCancelAtStep int
+	Invariant          func(w *World) `json:"-"` // evaluated at every quiescent point
+	NoTagWrap          bool
 }
 
 type FaultPlan struct {
@@ -81,6 +84,8 @@ type RespPlan struct {
 	Header  [][2]string
 	Body    []byte
 	Chunks  []int // body is written in these piece sizes with Flush in between (nil: one write)
+	DelayMS int   // the handler sleeps (simulated time) before answering
+	Hold    bool  // the handler parks at a yield point until the controller releases it
 	Trailer [][2]string
 	NoCL    bool
 }
@@ -148,6 +153,7 @@ type World struct {
 	Stuck         bool
 	schedHash     hash.Hash
 	ConnStates    []string
+	Aux           any
 }
 
 type testingT interface {
@@ -336,6 +342,11 @@ func NewWorld(t testingT, plan *Plan) *World {
 	w.BackSrv = &http.Server{Handler: http.HandlerFunc(w.backendHandler), ErrorLog: mk("[backend] ")}
 	go w.BackSrv.Serve(w.BackL)
 
+	if plan.CancelBeforeServe {
+		w.Cancelled = true
+		w.Cancel()
+		w.Net.fired("cancel_before_serve")
+	}
 	go func() {
 		err := srv.Serve(w.Front)
 		w.mu.Lock()
@@ -466,6 +477,12 @@ func (w *World) backendHandler(rw http.ResponseWriter, r *http.Request) {
 	w.mu.Unlock()
 
 	rp := w.Plan.Backend.Resp[rec.Tag]
+	if rp != nil && rp.Hold {
+		w.Yield("backend:" + rec.Tag)
+	}
+	if rp != nil && rp.DelayMS > 0 {
+		time.Sleep(time.Duration(rp.DelayMS) * time.Millisecond)
+	}
 	if rp == nil {
 		rw.Header().Set("X-Backend-Tag", rec.Tag)
 		rw.WriteHeader(200)
@@ -652,6 +669,9 @@ func (w *World) startAllowed(c *Client) bool {
 	if !first {
 		return true
 	}
+	if c.Plan.StartAfterCancel && !w.Cancelled {
+		return false
+	}
 	for _, id := range c.Plan.StartAfterDone {
 		if !w.Clients[id].Done() {
 			return false
@@ -762,7 +782,7 @@ func (w *World) Run() {
 	for w.Step < budget {
 		synctest.Wait()
 		w.absorb(last)
-		if w.Plan.CancelAtStep > 0 && w.Step == w.Plan.CancelAtStep && !w.Cancelled {
+		if w.Plan.CancelAtStep > 0 && !w.Cancelled && (w.Step >= w.Plan.CancelAtStep || len(w.enabled()) == 0) {
 			w.Cancelled = true
 			w.CancelledAt = w.Now()
 			w.Cancel()
@@ -772,6 +792,13 @@ func (w *World) Run() {
 			w.Step++
 			w.mu.Unlock()
 			continue
+		}
+		if w.Plan.SecondCancelAtStep > 0 && w.Step == w.Plan.SecondCancelAtStep && w.Cancelled {
+			w.Cancel()
+			w.Net.fired("repeated_cancel")
+		}
+		if w.Plan.Invariant != nil {
+			w.Plan.Invariant(w)
 		}
 		acts := w.enabled()
 		if len(acts) == 0 {
